@@ -353,6 +353,8 @@ def numpy_to_python_type(data):
     for key, val in data.items():
         # in data there is keys as 'samples' which is actually a dictionary
         if isinstance(val, dict):
+            # convert a copy: the nested dict may belong to a live object (e.g. Sample.samples)
+            val = data[key] = val.copy()
             for nested_key, nested_val in val.items():
                 is_numpy = type(nested_val)
                 data_type = str(is_numpy)
